@@ -34,6 +34,13 @@ def gen_cases(tier, seed):
     for i in range(n):
         rng = gen.rng_for("C17h", seed, i)
         nodes, edges = gen.cyc_any(rng, 14) if rng.random() < 0.75 else gen.dag_any(rng, 14)
+        if rng.random() < 0.25:
+            # parts lying on no source-to-sink walk: a cycle that cannot reach a sink and/or one that no source reaches
+            nodes = list(nodes); edges = list(edges); x = rng.choice(nodes); r = rng.random()
+            if r < 0.6:
+                nodes += ["dead1", "dead1b"]; edges += [(x, "dead1"), ("dead1", "dead1b"), ("dead1b", "dead1")]
+            if r >= 0.3:
+                nodes += ["dead2"]; edges += [("dead2", "dead2"), ("dead2", rng.choice(nodes[:-1]))]
         w = {e: rng.choice([0, 1, 2, 3, 5, 9, 0.5, 7.25, 100]) for e in edges}
         missing = [e for e in edges if rng.random() < 0.1]
         cases.append({"kind": "hist", "spec": gen.spec(nodes, edges, eattr={e: ({} if e in missing else {"flow": w[e]}) for e in edges}),
@@ -101,6 +108,8 @@ def run_hist(case, viol, obs):
             ops.append(("scc", e))
         ops.append(("maxreach", None))
         ops += [("reach", v) for v in nodes] + [("reaching", v) for v in nodes]
+    if case["nq"]:
+        ops += [("reach", st.source), ("reaching", st.sink)]
     for _ in range(case["nq"]):
         k = rng.choice(["reach", "reaching", "reach", "reaching", "scc", "maxreach", "width"])
         ops.append((k, rng.choice(nodes) if k in ("reach", "reaching") else (rng.choice(edges) if k == "scc" else None)))
